@@ -270,6 +270,21 @@ def _r2(w: World, rep: Report, eff: Effects):
     for key, ws in sorted(writers.items()):
         fi = eff.funcs[key]
         cfg = w.cfg(fi)
+        # one notion of "the same entry" for add and remove: the add side de-duplicates with `in` (equality), so a
+        # removal or membership test by identity leaves an equal entry behind (a bound method is a new object on
+        # every attribute access: `o.hook == o.hook` but `o.hook is not o.hook`)
+        if key.split('.')[-1].startswith(API_PREFIXES):
+            ident = [c for c in ast.walk(fi.node) if isinstance(c, ast.Compare) and
+                     any(isinstance(o, (ast.Is, ast.IsNot)) for o in c.ops) and
+                     not any(isinstance(x, ast.Constant) and (x.value is None or isinstance(x.value, bool))
+                             for x in [c.left] + c.comparators) and
+                     any(isinstance(x, ast.Name) and x.id in fi.params for x in [c.left] + c.comparators)]
+            rep.check('C19.R2s', f'{key}|entries-compared-by-equality', not ident,
+                      line=ident[0].lineno if ident else fi.node.lineno, file=w.repo.rel(fi.module.path),
+                      why='' if not ident else
+                      f'`{ast.unparse(ident[0])}` compares registry entries by identity while additions de-duplicate by '
+                      f'equality: an entry equal to but not identical with the stored one (a bound method) is never removed '
+                      f'and stays active')
         for wr in eff.direct.get(key, []):
             root = wr.path.split('.')[0].split('[')[0]
             if not (root.startswith('::') and root[2:] in REGISTRIES):
